@@ -783,6 +783,12 @@ def reply_corr(cx, a, sp, rng):
     for _ in range(3):
         k = rng.random()
         data = rng.randbytes(rng.choice([0, 1, 2, 3, 4, 5, 6, 7, 8, n, n, n + 1, n + 2, max(0, n - 1)]))
+        if ft == "F":                                     # no NaN patterns (ASSUMPTIONS): their payload does not survive float()
+            bs = bytearray(data)
+            for i in range(3, len(bs), 4):
+                if bs[i] & 0x7F == 0x7F and bs[i - 1] & 0x80:
+                    bs[i - 1] &= 0x7F
+            data = bytes(bs)
         sts = rng.choice([0, 0, 0, 0x10, 0x50, 0xF0, 1, 255, rng.randrange(256)])
         body = bytes([0xCB, 0, 0, 0, 7, 9, 16, 9, 16, 25, 113, 0x4F, sts, 1, 0]) + data
         raw = rng.randbytes(46) + body
@@ -818,7 +824,8 @@ def run(R, escalate=False):
     R.rule = ("addresses from the ADT (9 file types x word / bit / Bf/n / {count} / timer-counter sub-elements, boundary-biased file, element, bit, "
               "count) x spellings (case, leading zeros, optional I/O file / word) x random data tables x random values: real SLCDriver.read/write "
               "against the reference target; rejection classes; parse_tag on all of these plus every single-character edit, over-long digit "
-              "runs, prefixes / suffixes; replies with random status / length / truncation.  non-trivial = distinct (kind, address string)")
+              "runs, prefixes / suffixes — every such string the property's grammar (read independently) speaks about is also put to the driver-level oracle; "
+              "replies with random status / length / truncation.  non-trivial = distinct (kind, address string)")
     co = Co()
     try:
         drv = make_driver(co)
@@ -882,10 +889,11 @@ def replay(R, rp):
         rng = R.rng
         if isinstance(c, dict) and "addr" in c:
             a = tuple(c["addr"][:4]) + (c["addr"][4], c["addr"][5])
-            scenario(cx, a, tuple(c["spelling"]), rng, "replay")
+            sp = tuple(c["spelling"]) if c.get("spelling") else None
+            scenario(cx, a, sp, rng, "replay", s=c.get("address") if sp is None else None)
         elif isinstance(c, dict) and "address" in c:
             reject_oracle(cx, c["address"], f.get("class", "reject:replay"), rng)
     finally:
         logging.disable(logging.NOTSET)
         co.close()
-    run(R, escalate=True)
+    run(R, escalate=False)
